@@ -174,7 +174,9 @@ def check_value(p, v, col, via: str):
     if labels:
         col.sample({"T": mat.root_expr, "v": vsrc[:300], "labels": sorted(labels)})
 
-    amb = ambiguity(spec, v, mat) if (wide or U.has_kind(spec, "optional")) else None
+    # decided only after the library calls under test: the rule builds routines of its own for member types and
+    # must not warm the caches those calls start from
+    amb = None
 
     def case():
         c = p.case(value=vsrc, via=via)
@@ -205,6 +207,7 @@ def check_value(p, v, col, via: str):
                           bucket=exc_bucket(ur))
             return
         ku, u = tl.call(ur, m)
+    amb = ambiguity(spec, v, mat) if (wide or U.has_kind(spec, "optional")) else None
     if ku == "exc" and amb and isinstance(u, ValueError):
         col.violation("union-fixpoint", case(), f"T={mat.root_expr} m={m!r:.200}: unmarshal(T, m) raised {tl.exc_name(u)}: {u}",
                       bucket="unmarshal-raises")
